@@ -138,6 +138,8 @@ class LineProfilerMagics(Magics):
         finally:
             if had_profile:
                 builtins.__dict__["profile"] = old_profile
+            else:
+                del builtins.__dict__["profile"]
 
         # Trap text output.
         stdout_trap = StringIO()
